@@ -215,6 +215,38 @@ def _one_based(a: ast.AST) -> Optional[bool]:
     return None
 
 
+def r2b_results_stored_first(R) -> None:
+    """The values returned by the engine are stored back before any status
+    bookkeeping or exception derived from the error codes (the pure-Python
+    engine keeps what earlier periods computed when a later one fails)."""
+    for (q, f, n, a, subname) in _engine_calls(R):
+        stores = [m for m in f.cfg.nodes if m.kind == 'stmt' and isinstance(m.ast, ast.Assign) and text(m.ast.targets[0]) == 'self.values']
+        if not R.require(q, len(stores), 'self.values = solved_values', fi=f.fi, pred=lambda x: isinstance(x, ast.Attribute) and x.attr == 'values' and isinstance(x.ctx, ast.Store)):
+            continue
+        st = stores[0]
+        R.check(n.id in f.dom[st.id], q, 'values-after-engine', 'the stored matrix is the one the engine returned', 'self.values is stored before the engine call',
+                where=f.where(st))
+        if subname == 'evaluate':
+            # evaluation: nothing is stored when the engine reports an error
+            for r in f.raises():
+                if n.id in f.dom[r.id]:
+                    R.check(not f.cfg.reaches(st.id, r.id), q, f'evaluate-store-after-checks:{raised_class(r.ast)}', 'a failed evaluation stores nothing',
+                            'values are stored before the error code of evaluate() is checked', where=f.where(st))
+            continue
+        later = [r for r in f.raises() if n.id in f.dom[r.id] and any('error_code' in text(x) or 'converged' in text(x) or 'status' in text(x)
+                                                                      for (x, _t, _n) in f.guard_atoms(r.id))]
+        for r in later:
+            R.check(st.id in f.dom[r.id], q, f'values-before-raise:{raised_class(r.ast)}:{stmt_key(r.ast)[:30]}',
+                    'engine results are stored before an exception derived from the outcome is raised',
+                    f'`raise {raised_class(r.ast)}` (L{r.lineno}) can be reached before `self.values = solved_values`: the model would keep its old values '
+                    f'although statuses of the solved periods were updated', where=f.where(st))
+        sts = [m for m in f.cfg.nodes if m.kind == 'stmt' and isinstance(m.ast, ast.Assign) and isinstance(m.ast.targets[0], ast.Subscript)
+               and text(m.ast.targets[0].value) in ('self.status', 'self.iterations') and n.id in f.dom[m.id]]
+        for m in sts:
+            R.check(st.id in f.dom[m.id], q, f'values-before-status:{stmt_key(m.ast)[:40]}', 'values are stored before statuses are recorded',
+                    f'`{m.label()[:50]}` can run before the engine results are stored', where=f.where(m))
+
+
 def r3_index_base(R, unit: FUnit) -> None:
     sd = _subscript_dummies(unit)
     n = 0
@@ -537,6 +569,7 @@ def run(R) -> None:
     unit = unit_of(R)
     R.rule('C07.R1', lambda: r1_numbering(R))
     R.rule('C07.R2', lambda: r2_ffi_agreement(R, unit))
+    R.rule('C07.R2b', lambda: r2b_results_stored_first(R))
     R.rule('C07.R3', lambda: r3_index_base(R, unit))
     R.rule('C07.R4', lambda: r4_code_tables(R, unit))
     R.rule('C07.R5', lambda: r5_skeleton(R, unit))
